@@ -31,6 +31,12 @@ public:
     void popScope(TFun callback);
 
     [[nodiscard]] bool empty() const { return elements.empty(); }
+    [[nodiscard]] T const & back() const { return elements.back(); }
+    // Removes the last element; must not cross the limit of the current scope
+    void popBack() {
+        assert(not elements.empty() and (limits.empty() or elements.size() > limits.back()));
+        elements.pop_back();
+    }
     [[nodiscard]] std::size_t size() const { return elements.size(); }
 
     [[nodiscard]] T * data() { return elements.data(); }
